@@ -1,0 +1,11 @@
+//go:build verif
+
+// Contracts for package jwx, checked by /verif/govc (comment-only; not part of any normal build).
+
+package jwx
+
+//@ func IsAlgorithmSupported
+//@   prop C17
+//@   pure
+//@   loop 1 invariant forall k int :: 0 <= k && k < $i ==> SupportedAlgorithms[k] != alg
+//@   ensures [member-of-allow-list] result <==> exists k int :: 0 <= k && k < len(SupportedAlgorithms) && SupportedAlgorithms[k] == alg
